@@ -852,6 +852,7 @@ class AwareASTNode(DataClassSerializeMixin):
                     new_was_attached = False
 
                 # Change the ID of the new node to the old one, and store the old one in original_id
+                new_ids = (new.id, new.original_id)
                 object.__setattr__(new, "original_id", new.id)
                 object.__setattr__(new, "id", self.id)
 
@@ -859,8 +860,10 @@ class AwareASTNode(DataClassSerializeMixin):
                 try:
                     new._attach("replace")
                 except Exception as e:
-                    # If we failed to the attach new node, re-attach the old one
-                    # and raise the exception
+                    # If we failed to the attach new node, give it its own ids back,
+                    # re-attach the old one and raise the exception
+                    object.__setattr__(new, "id", new_ids[0])
+                    object.__setattr__(new, "original_id", new_ids[1])
 
                     assert cur_parent_field is not None
                     self._set_parent(cur_parent, cur_parent_field, cur_parent_index)
@@ -900,6 +903,7 @@ class AwareASTNode(DataClassSerializeMixin):
                 new_was_attached = False
 
             # Change the ID of the new node to the old one, and store the old one in original_id
+            new_ids = (new.id, new.original_id)
             object.__setattr__(new, "original_id", new.id)
             object.__setattr__(new, "id", self.id)
 
@@ -907,8 +911,11 @@ class AwareASTNode(DataClassSerializeMixin):
             try:
                 new._attach("replace")
             except Exception as e:
-                # If we failed to the attach new node, re-attach the old one
-                # and raise the exception
+                # If we failed to the attach new node, give it its own ids back,
+                # re-attach the old one and raise the exception
+                object.__setattr__(new, "id", new_ids[0])
+                object.__setattr__(new, "original_id", new_ids[1])
+
                 if was_attached:
                     self._attach("replace")
 
